@@ -94,6 +94,8 @@ def run_mutant(mut, feature_set='default', cmdline=None):
         facts = F.Facts(fd)
         ctx = core.Ctx(facts, feature_set)
         only = set(r for r, _ in mut['expect']) if mut.get('expect') else None
+        if only and '*' in only:
+            only = None
         if mut.get('restrict_props'):
             for p_ in mut['restrict_props']:
                 core.run_rules(ctx, prop=p_)
